@@ -203,7 +203,7 @@ def parse_obs(text):
         d.setdefault(parts[0], []).append((parts[1] + "." + parts[2], v))
     return d
 
-def diff_obs(a, b, ignore=("nonfinite",), only=None):
+def diff_obs(a, b, ignore=("nonfinite", "trace"), only=None):
     """compare two observation dicts; returns list of (case, key, a, b)"""
     out = []
     for c in sorted(set(a) | set(b)):
